@@ -100,6 +100,9 @@ def cat(op, inputs, dim=0):
 def lt(op, input, other):
     # Only quantized tensors with identical scales can be compared
     if isinstance(input, QBytesTensor) and isinstance(other, QBytesTensor) and torch.equal(input._scale, other._scale):
+        if input.qtype.is_floating_point or other.qtype.is_floating_point:
+            # lt is not supported for float8
+            return qfallback(op, input, other)
         return op(input._data, other._data)
     return qfallback(op, input, other)
 
